@@ -19,15 +19,51 @@ RULE = ("cases = one WS connection (a sequence of single-frame messages) or one 
         "queue is full), an oversized message (limit+1 / far beyond / two of them / first = control) at several positions, "
         "ordinary calls and a final barrier call; then everything is read: one -32007 per oversized message, every in-limit "
         "call answered once, compared as a multiset with the model's run of the bounded-queue connection (conn_step).  "
+        "Family ws-fragmented (RFC 6455 continuation frames, raw WebSocket client): per WS entry point and limit, messages of "
+        "limit-1 / limit / limit+1 / far beyond cut into 2..4 fragments (even cuts, first fragment below the limit with a later "
+        "one crossing it, every fragment below but the total above, an oversized first fragment, 1-byte first / last fragment, "
+        "empty fragments, random cuts, a Ping between fragments), sent by a client that stays in step with soketto's discard "
+        "(it supplies the bytes soketto discards in excess of the offending frame, or stops after the fragment that crossed "
+        "the limit), each followed by an ordinary call, a message that is valid JSON only when appended to the fragments of "
+        "the rejected message that had already been buffered, and a fragmented in-limit message; every reply frame, the "
+        "handler log and the liveness of the connection are compared with the frame-level reader ws_read of the model and "
+        "judged directly (rejected iff total > limit, nothing dispatched but the in-limit calls, same replies as the same "
+        "bytes in single frames, connection alive); plus the scripts of a client that does NOT stay in step (no filler, a "
+        "continuation after the crossing fragment, an unsolicited Pong between fragments): diffed against the model (which "
+        "predicts the withheld rejection, the over-discard, the desynchronisation and the close) and judged by the safety "
+        "oracle only (nothing dispatched but the in-limit calls); what they show is counted in the input distribution "
+        "(frag:naive-*, frag:pong-between-fragments-*).  "
         "distinct non-trivial = distinct canonical result lines that contain at least one rejection")
 TRUSTED = [
     "translator tools/translators/limits_wiring.py (regex + brace matching over server.rs, transport/ws.rs, transport/http.rs, "
     "middleware/rpc.rs, core http_helpers.rs): cross-checked on every run by the end-to-end engine with unequal limits on every entry point",
     "modelled, not verified: soketto's size check (`length > max_message_size`, discard, receiver stays usable), "
     "http_body_util::Limited, hyper; tied by the differential run only",
+    "modelled, not verified: soketto 0.8.1 Receiver::receive over fragments (accumulation into the caller's Vec before the "
+    "check, discard of the accumulated length, Pong returns from inside the fragment loop): Model/ReqLimit.v ws_step, tied by "
+    "the family ws-fragmented; the translator's reading of the unfold closure (ws_recv_buffer_fresh)",
 ]
 ASSUMPTIONS = [
-    "single-frame WebSocket messages (the property's quantifier); fragmented messages are outside the model",
+    "the rejection / keeps-serving clauses are claimed for single-frame WebSocket messages (the property's quantifier); for "
+    "fragmented messages (RFC 6455 5.4) the safety half -- nothing longer than the limit and no byte of a rejected message is "
+    "ever dispatched -- is claimed for every frame stream (theorem C07_frag_no_carry_over, oracle oversize-request-processed), "
+    "the full outcome (same as the same bytes in one frame, exactly one -32007, connection alive) for a client that stays in "
+    "step with soketto's discard (predicate in_step of Model/ReqLimit.v, theorem C07_frag_total_decides)",
+    "observed on the unchanged tree, outside the single-frame quantifier (upstream soketto 0.8.1; the engine's naive scripts "
+    "replay them on every run and the model predicts them exactly, theorem C07_frag_out_of_step_observed): (1) when fragment "
+    "j > 1 takes the accumulated length above the limit, `discard_bytes(length)` discards the ACCUMULATED length, i.e. "
+    "acc = |f_1|+..+|f_(j-1)| bytes more than the unread payload of frame j: the -32007 is withheld until acc further bytes "
+    "have arrived, those bytes (rest of the message, the client's next messages) are swallowed, and unless exactly acc bytes "
+    "lie before the next frame header the stream is left inside a frame (garbage header, Close 1000, EOF); (2) when a "
+    "non-final fragment crosses the limit (also an oversized first fragment) the next continuation frame after the -32007 "
+    "is UnexpectedOpCode(Continue) and ws.rs closes the connection -- unless that fragment is itself above the limit: then "
+    "one more -32007 per such fragment; (3) an unsolicited Pong between two fragments loses the partial message (soketto "
+    "returns Incoming::Pong from inside the fragment loop, dropping first_fragment_opcode / length; fresh Vec per receive() "
+    "call drops the fragments read so far): the next continuation frame closes the connection and the in-limit message is "
+    "never processed (a Ping between fragments is answered inside the loop and is harmless)",
+    "fragmented WebSocket messages: frames are masked with the minimal length encoding, control frames are Ping / Pong with "
+    "<= 125 bytes; no Close frames, no reserved bits, no extensions; what the server parses the bytes as once the frame "
+    "stream has lost step (model event FDesync) is outside the model",
     "HTTP bodies are JSON POSTs whose first frame is non-empty and starts the JSON text (method / content-type gate and "
     "first-frame sniffing are C19's); Content-Length is absent or truthful, except on the socket-free entry points where "
     "lying values are exercised too (theorem C07_decision_any_content_length)",
@@ -613,6 +649,382 @@ def run_pipeline(ctx, cases):
                          {"impl": line[:600], "model": m[:600]})
 
 
+
+# ---------------------------------------------------------------- family ws-fragmented
+
+
+def frag_cut(msg_segs, total, cuts):
+    """fragments of the message at the byte positions `cuts` (0, total and repeated positions give empty fragments)"""
+    return L.segs_split(msg_segs, sorted(min(max(c, 0), total) for c in cuts))
+
+
+def frag_subject(rq, parts, pings=(), abandon=False, step=True, pong_at=None):
+    """One fragmented message as frag-mode items.  parts = fragment payloads (segs); pings = {index: payload} a Ping written
+    before fragment <index>; pong_at = index of a fragment before which an unsolicited Pong is written.
+    What the client must do to stay in step with soketto is computed here (input construction only): soketto notices
+    the excess at the fragment where the accumulated length passes the limit and then discards the accumulated length,
+    i.e. `acc` bytes more than that frame's payload.  step=True: the client supplies exactly what is missing as unframed
+    filler bytes (possible when the rest of the message is not longer than `acc`); abandon=True: it stops after the
+    crossing fragment (and supplies `acc` filler bytes).  Returns (items, info)."""
+    lens = [L.segs_len(x) for x in parts]
+    acc, cross = 0, None
+    for k, n in enumerate(lens):
+        if acc + n > rq:
+            cross = k
+            break
+        acc += n
+    last = len(parts) - 1 if not (abandon and cross is not None) else cross
+    items, after, answered_pings = [], 0, 0
+    for k in range(last + 1):
+        if k in dict(pings):
+            items.append("P:" + dict(pings)[k])
+            if cross is None or k <= cross:
+                answered_pings += 1
+            else:
+                after += L.wire_bytes("p", L.segs_len(dict(pings)[k]))
+        if pong_at == k:
+            items.append("O:" + L.seg(b"po"))
+        fin = "1" if (k == len(parts) - 1) else "0"
+        items.append(("T" if k == 0 else "C") + fin + ":" + parts[k])
+        if cross is not None and k > cross:
+            after += L.wire_bytes("c", lens[k])
+    info = {"size": sum(lens), "over": cross is not None, "cross": cross, "acc": acc if cross is not None else 0,
+            "after": after, "pings": answered_pings, "instep": True, "frags": len(parts)}
+    if cross is not None:
+        need = acc - after
+        if need < 0 or not step:
+            info["instep"] = (acc == after)
+        elif need > 0:
+            items.append("R:" + L.seg(b"\x00", need))
+        info["filler"] = max(need, 0) if step else 0
+    return items, info
+
+
+def gen_frag(ctx, eps_ws=L.EPS_WS):
+    """scripts of the family ws-fragmented: (in-step scripts, naive scripts)"""
+    rng = ctx.rng
+    big = ctx.thorough or ctx.search_mode
+    limits = [100, 128, 1000, 4096] + ([64, 257, 20000, 65536, rng.randint(70, 3000), rng.randint(70, 50000)] if big else [rng.randint(70, 3000)])
+    next_id = [0]
+
+    def nid():
+        next_id[0] += 1
+        return 3000000 + next_id[0]
+
+    def single(segs_, kind, plen, size, **extra):
+        return {"items": ["T1:" + segs_], "expect": 1}, dict({"size": size, "kind": kind, "plen": plen, "over": False, "instep": True, "frags": 1, "pings": 0}, **extra)
+
+    def script(ep, rq, rs, subj_items, subj_info, subj_kind, subj_plen, head_len, style, naive=False, expects=None):
+        msgs, meta = [], []
+        msgs.append({"items": subj_items, "expect": 1 if subj_info["instep"] else 0})
+        meta.append(dict(subj_info, kind=subj_kind, plen=subj_plen))
+        used = {4, subj_plen}
+        # an ordinary in-limit call: before or after the next one (whatever comes first would absorb a carried-over buffer)
+        si = nid()
+        sg, kind, plen = L.small_call(si)
+        small_m, small_meta = single(sg, kind, plen, L.segs_len(sg), id=si)
+        small_first = rng.random() < 0.35
+        if small_first:
+            msgs.append(small_m)
+            meta.append(small_meta)
+        # a message that is only valid JSON when appended to what a carried-over buffer would hold: the fragments of
+        # the rejected message that soketto had appended before it noticed the excess (its first `acc` bytes)
+        acc = subj_info["acc"]
+        if subj_info["over"] and acc > 0 and subj_kind == "echo":
+            mlen = min(max(5, rq - acc + 1), rq - 3)
+            while (max(acc - head_len, 0) + mlen + 4) in used:
+                mlen -= 1
+            if mlen >= 1:
+                head = L.call_skeleton(subj_info["id"], "echo")
+                tail = (head[acc:] if acc < len(head) else b"") + b"x" * mlen + b'"]}'
+                if len(tail) <= rq:
+                    m, mm = single(L.seg(tail), "tail", None, len(tail), carried_plen=max(acc - head_len, 0) + mlen + 4)
+                    msgs.append(m)
+                    meta.append(mm)
+                    used.add(mm["carried_plen"])
+        if not small_first:
+            msgs.append(small_m)
+            meta.append(small_meta)
+        # a message that is valid on its own, itself cut in two in-limit fragments
+        own_total = rng.randint(max(62, rq // 2), rq) if rq >= 64 else rq
+        oi = nid()
+        sg, kind, plen = L.sized_message(oi, own_total)
+        while plen in used and own_total > 62:
+            own_total -= 1
+            sg, kind, plen = L.sized_message(oi, own_total)
+        parts = frag_cut(sg, own_total, [rng.randint(1, own_total - 1)])
+        items, info = frag_subject(rq, parts)
+        msgs.append({"items": items, "expect": 1})
+        meta.append(dict(info, kind=kind, plen=plen, id=oi))
+        if naive:
+            for m in msgs:
+                m["expect"] = 0
+        c = {"ep": ep, "t": "ws", "mode": "frag", "rq": rq, "rs": rs, "barrier": L.FRAG_BARRIER, "msgs": msgs, "_meta": meta, "_style": style}
+        if naive:
+            c["quiet"] = 150
+            c["mask"] = "00000000"
+            c["_naive"] = True
+        return c
+
+    steps, naive, cand = [], [], {}
+    for ep in eps_ws:
+        for rq in limits:
+            rs = rng.choice([65536, 10 * 1024 * 1024, max(1, rq // 2)])
+            far = 4 * rq + 3
+            totals = [rq - 1, rq, rq + 1, far] + ([2 * rq + 1, rq + rng.randint(2, rq)] if big else [])
+            for total in totals:
+                styles = []
+                r = lambda a, b: rng.randint(a, max(a, b))
+                styles.append(("even2", [total // 2]))
+                styles.append(("even3", [total // 3, 2 * total // 3]))
+                styles.append(("even4", [total // 4, total // 2, 3 * total // 4]))
+                styles.append(("first-below-later-crosses", [min(total - 1, rq - rng.choice([0, 1, 16]))]))
+                styles.append(("first-below-third-crosses", sorted([min(total - 2, rq // 2), min(total - 1, rq - 1)])))
+                styles.append(("oversized-first", [min(total - 1, rq + 1 + rng.choice([0, 7]))]))
+                styles.append(("tiny-first", [1]))
+                styles.append(("last1", [total - 1]))
+                styles.append(("empty-first", [0, r(1, total - 1)]))
+                styles.append(("empty-middle", [total // 2, total // 2]))
+                styles.append(("empty-last", [r(1, total - 1), total]))
+                styles.append(("random", [r(1, total - 1) for _ in range(rng.randint(1, 3))]))
+                if big:
+                    styles.append(("random", [r(1, total - 1) for _ in range(rng.randint(1, 3))]))
+                    styles.append(("random-low", [r(1, min(total - 1, rq)) for _ in range(rng.randint(1, 3))]))
+                for style, cuts in styles:
+                    i = nid()
+                    sg, kind, plen = L.sized_message(i, total)
+                    head_len = len(L.call_skeleton(i, "echo"))
+                    parts = frag_cut(sg, total, cuts)
+                    pings = {}
+                    if rng.random() < 0.3:
+                        pings = {rng.randint(1, len(parts) - 1): L.seg(b"pi" + bytes([48 + rng.randint(0, 9)]))}
+                    items, info = frag_subject(rq, parts, pings=pings)
+                    info["id"] = i
+                    if info["instep"]:
+                        steps.append(script(ep, rq, rs, items, info, kind, plen, head_len, style))
+                    else:
+                        # no amount of filler keeps this client in step: the in-step client stops after the crossing fragment
+                        it2, info2 = frag_subject(rq, parts, pings=pings, abandon=True)
+                        info2["id"] = i
+                        steps.append(script(ep, rq, rs, it2, info2, kind, plen, head_len, style + "/abandoned"))
+                        lens = [L.segs_len(x) for x in parts]
+                        post = lens[info["cross"] + 1:]
+                        cls = "cont-all-big" if all(n > rq for n in post) else ("cont-big" if any(n > rq for n in post) else "cont-small")
+                        cand.setdefault((ep, cls), []).append(script(ep, rq, rs, items, info, kind, plen, head_len, "complete:" + style, naive=True))
+                    # the client that does not know about the over-discard
+                    if info["over"] and info["acc"] > 0 and info["instep"]:
+                        it3, info3 = frag_subject(rq, parts, pings=pings, step=False)
+                        info3["id"] = i
+                        if not info3["instep"]:
+                            cand.setdefault((ep, "nofiller"), []).append(script(ep, rq, rs, it3, info3, kind, plen, head_len, "nofiller:" + style, naive=True))
+            # an unsolicited Pong between two fragments of an in-limit message
+            for _ in range(2 if big else 1):
+                i = nid()
+                total = rng.randint(62, rq) if rq >= 62 else rq
+                sg, kind, plen = L.sized_message(i, total)
+                parts = frag_cut(sg, total, [rng.randint(1, total - 1)])
+                items, info = frag_subject(rq, parts, pong_at=1)
+                info["id"] = i
+                info["instep"] = False
+                info["pong_between"] = True
+                naive.append(script(ep, rq, rs, items, info, kind, plen, len(L.call_skeleton(i, "echo")), "pong-between", naive=True))
+    # the out-of-step scripts are slow (every message waits out its quiet period): a sample per entry point and class
+    for (ep, cls), pool in sorted(cand.items()):
+        k = {"nofiller": (3, 10), "cont-small": (2, 8), "cont-big": (1, 4), "cont-all-big": (1, 4)}[cls][1 if big else 0]
+        naive += rng.sample(pool, min(k, len(pool)))
+    return steps, naive
+
+
+def frag_model_line(c):
+    items = []
+    for m in c["msgs"]:
+        items += ["%s:%d" % kn for kn in L.frag_wire(L.frag_items_of(m))]
+    items.append("t1:%d" % len(L.frag_barrier_call(c.get("barrier", L.FRAG_BARRIER))))
+    return "wsf %s %d %d %s" % (c["ep"], c["rq"], c["rs"], ",".join(items))
+
+
+def frag_canon(c, r):
+    """everything the server sent, in arrival order, in the alphabet of `wsf` of modelrun/reqlimit_driver.ml:
+    T:<hex> rejection, D another text frame, P:<len> Pong, X connection closed / lost, S still open but the barrier unanswered"""
+    if "replies" not in r:
+        return "ERROR " + str(r.get("error"))[:200]
+    out, closed = [], False
+    for x in [y for rep in r["replies"] for y in rep] + list(r.get("final", [])):
+        kind, v = L.frag_frame(x)
+        if kind == "text":
+            fe = L.fixed_error_of(v)
+            out.append("T:" + v.hex() if fe and fe[0] == -32007 else "D")
+        elif kind == "pong":
+            out.append("P:%d" % len(v))
+        else:
+            closed = True
+    if closed:
+        out.append("X")
+    elif not r.get("alive"):
+        out.append("S")
+    return " ".join(out)
+
+
+def frag_model_canon(m):
+    """model line -> (tokens comparable with frag_canon, open_end): E (protocol error: connection closed) = X;
+    after Z (the reader is inside a frame) the model predicts nothing: compare the prefix only"""
+    toks = []
+    for t in m.split():
+        if t.startswith("D:"):
+            toks.append("D")
+        elif t == "E":
+            toks.append("X")
+        elif t == "Z":
+            return toks, True
+        else:
+            toks.append(t)
+    return toks, False
+
+
+def frag_oracle(c, r, twin=None):
+    """The property restated on the implementation's output alone: list of (key, detail)."""
+    where = label(c)
+    rq, metas = c["rq"], c["_meta"]
+    fails = []
+    if "replies" not in r or len(r["replies"]) != len(c["msgs"]):
+        return [("ws-run-incomplete:" + where, str(r)[:300])]
+    naive = bool(c.get("_naive"))
+    any_over = any(m["over"] for m in metas)
+    dead = []
+    expected_log = []
+    for k, (meta, rep) in enumerate(zip(metas, r["replies"])):
+        fr = [L.frag_frame(x) for x in rep]
+        texts = [v for kind, v in fr if kind == "text"]
+        dead += [v for kind, v in fr if kind == "marker"]
+        rej = [v for v in texts if (L.fixed_error_of(v) or (None,))[0] == -32007]
+        other = [v for v in texts if v not in rej]
+        desc = "message %d (%d bytes in %d fragments, limit %d, style %s)" % (k, meta["size"], meta["frags"], rq, c.get("_style"))
+        if meta["size"] > rq:
+            if other and not naive:
+                fails.append(("oversize-request-processed:" + where, "%s was answered %r" % (desc, other[0][:120])))
+            if not naive:
+                if len(rej) != 1:
+                    fails.append(("oversize-rejection-count:" + where, "%d rejection frames for %s: %s" % (len(rej), desc, rep[:4])))
+                elif rej[0] != L.too_big_request(rq):
+                    fails.append(("reject-frame-wrong:" + where, "%r != %r" % (rej[0][:200], L.too_big_request(rq))))
+        else:
+            if meta["kind"] == "echo":
+                expected_log.append("echo:%d" % meta["plen"])
+            if naive:
+                continue
+            if rej:
+                fails.append(("inlimit-request-rejected:" + where, "%s was rejected with -32007" % desc))
+            elif len(other) != 1:
+                fails.append(("inlimit-reply-count:" + where, "%d replies for %s: %s" % (len(other), desc, rep[:4])))
+            elif meta["kind"] == "echo" and "id" in meta and other[0] != L.response_bytes(meta["id"], b'"ok"'):
+                fails.append(("inlimit-reply-altered:" + where, "%s: %r" % (desc, other[0][:120])))
+    dead += [x for x in r.get("final", []) if L.frag_frame(x)[0] == "marker"]
+    # the handler log: nothing but the in-limit echo calls of the script, each once
+    log = sorted(r.get("log", []))
+    producible = sorted(expected_log)
+    extra = list(log)
+    for x in producible:
+        if x in extra:
+            extra.remove(x)
+    if extra:
+        fails.append(("oversize-request-processed:" + where,
+                      "the handler log %s shows a dispatch that no in-limit message of the script could have produced (in-limit echo calls: %s; limit %d, style %s)"
+                      % (extra[:4], producible[:6], rq, c.get("_style"))))
+    elif log != producible and not naive:
+        fails.append(("handler-log-mismatch:" + where, "log %s, expected %s" % (log[:12], producible[:12])))
+    if naive:
+        # the out-of-step client is outside the rejection / keeps-serving clauses: only the safety half (above) is judged
+        return fails
+    if dead or not r.get("alive"):
+        fails.append((("connection-dead-after-oversize:" if any_over else "ws-connection-lost:") + where,
+                      "markers %s, barrier answered: %s (limit %d, style %s, sizes %s)" % (dead[:3], r.get("alive"), rq, c.get("_style"), [m["size"] for m in metas])))
+    if twin is not None and "replies" in twin and len(twin["replies"]) == len(r["replies"]):
+        for k, (a, b) in enumerate(zip(r["replies"], twin["replies"])):
+            ta = [v for kind, v in map(L.frag_frame, a) if kind == "text"]
+            tb = [v for kind, v in map(L.frag_frame, b) if kind == "text"]
+            if ta != tb:
+                fails.append(("fragmentation-changes-outcome:" + where,
+                              "message %d (%d bytes, limit %d, style %s): fragmented script %r, the same bytes in single frames %r"
+                              % (k, metas[k]["size"], rq, c.get("_style"), [x[:90] for x in ta], [x[:90] for x in tb])))
+                break
+        if sorted(twin.get("log", [])) != log:
+            fails.append(("fragmentation-changes-outcome:" + where, "handler log %s, with the same bytes in single frames %s" % (log[:8], sorted(twin.get("log", []))[:8])))
+    return fails
+
+
+def frag_observed(c, r):
+    """input-distribution bucket of a naive script: what was observed (never a verdict)"""
+    meta0 = c["_meta"][0]
+    frames = [L.frag_frame(x) for rep in r.get("replies", []) for x in rep] + [L.frag_frame(x) for x in r.get("final", [])]
+    closed = any(k == "marker" for k, _ in frames)
+    nrej = sum(1 for k, v in frames if k == "text" and (L.fixed_error_of(v) or (None,))[0] == -32007)
+    end = "closes" if closed else ("stalls" if not r.get("alive") else "survives")
+    if meta0.get("pong_between"):
+        return "frag:pong-between-fragments-" + end
+    if c["_style"].startswith("nofiller:"):
+        return "frag:naive-overdiscard-" + ("desync-" + end if closed else end)
+    if nrej > 1:
+        return "frag:naive-rejection-per-oversized-fragment-" + end
+    return "frag:naive-continuation-after-reject-" + end
+
+
+def frag_twin(c):
+    """the same data bytes, every message in one frame, no control frames, no filler"""
+    msgs = []
+    for m in c["msgs"]:
+        data = [it.split(":", 1)[1] for it in L.frag_items_of(m) if it[:3] in ("T0:", "T1:", "C0:", "C1:")]
+        runs = [x for d in data for x in (d.split("+") if d != "-" else [])]
+        msgs.append({"items": ["T1:" + L.segs_join(runs)], "expect": 1})
+    return dict(public(c), msgs=msgs)
+
+
+def run_frag(ctx, cases_naive=None):
+    steps, naive = cases_naive if cases_naive is not None else gen_frag(ctx)
+    cases = steps + naive
+    twins = {}
+    for c in steps:
+        t = frag_twin(c)
+        twins.setdefault(json.dumps(t, sort_keys=True), t)
+    tlist = list(twins.values())
+    res = L.run_srv([public(c) for c in cases] + tlist)
+    tres = dict(zip(twins.keys(), res[len(cases):]))
+    model = vlib.run_lines([vlib.model_bin("reqlimit")], [frag_model_line(c) for c in cases])
+    for c, r, m in zip(cases, res, model):
+        line = frag_canon(c, r)
+        nv = bool(c.get("_naive"))
+        ctx.count("ws-fragmented%s:%s" % ("-naive" if nv else "", c["ep"]))
+        ctx.count("ws-fragmented-style:" + c["_style"].split("/")[0].split(":")[-1])
+        meta0 = c["_meta"][0]
+        ctx.count("ws-fragmented-subject:%s" % ("in-limit" if not meta0["over"] else ("over/abandoned" if "/abandoned" in c["_style"] else ("over/naive" if nv else "over/in-step"))))
+        ctx.record(public(c), line, nontrivial=("T:" in line))
+        if nv:
+            ctx.count(frag_observed(c, r))
+        twin = None if nv else tres.get(json.dumps(frag_twin(c), sort_keys=True))
+        fs = frag_oracle(c, r, twin)
+        seen = set()
+        for key, detail in fs:
+            if key in seen:
+                continue
+            seen.add(key)
+            ctx.fail("oracle", key, dict(public(c), _meta=c["_meta"], _style=c["_style"], **({"_naive": True} if nv else {})), detail)
+        toks, open_end = frag_model_canon(m)
+        got = line.split()
+        # a Pong is written by the receiver itself, a reply travels through the connection's queue and send_task: their
+        # order on the wire is not determined -- the Pongs are compared as a sequence of their own
+        pongs = lambda l: [t for t in l if t.startswith("P:")]
+        rest = lambda l: [t for t in l if not t.startswith("P:")]
+        if open_end:
+            same = rest(got)[:len(rest(toks))] == rest(toks) and pongs(got)[:len(pongs(toks))] == pongs(toks)
+        else:
+            same = rest(got) == rest(toks) and pongs(got) == pongs(toks)
+        if not same:
+            if fs:
+                ctx.count("diff-next-to-oracle-failure")
+            else:
+                ctx.fail("diff", "srvlimits-frag-model-differs:" + label(c), dict(public(c), _meta=c["_meta"], _style=c["_style"], **({"_naive": True} if nv else {})),
+                         {"impl": line[:600], "model": m[:600]})
+
+
 def run(ctx):
     ctx.engines = ["srvlimits (harness/src/bin/srvlimits.rs: real servers through 5 entry points x {ws,http}) vs "
                    "modelrun/reqlimit_driver.ml over coq/Model/ReqLimit.v + Gen/LimitsWiringGen.v"]
@@ -627,6 +1039,7 @@ def run(ctx):
     if os.environ.get("VERIF_SRVLIMITS_BIN"):
         ctx.note("srvlimits implementation binary overridden: " + L.impl_bin())
     run_pipeline(ctx, gen_pipeline(ctx))
+    run_frag(ctx)
 
 
 def replay(payload):
@@ -635,6 +1048,22 @@ def replay(payload):
     if not (isinstance(case, dict) and "ep" in case):
         print(json.dumps(case)[:2000])
         return 0
+    if case.get("mode") == "frag":
+        r = L.run_srv([public(case)])[0]
+        print("case:", json.dumps(public(case))[:1500])
+        for m, rep in zip(case["msgs"], r.get("replies", [])):
+            print("  sent %s -> %s" % (["%s:%d" % kn for kn in L.frag_wire(L.frag_items_of(m))],
+                                      [(v[:100] if k != "marker" else v) for k, v in map(L.frag_frame, rep)]))
+        print("  barrier -> %s alive %s | log: %s" % ([(v[:100] if k != "marker" else v) for k, v in map(L.frag_frame, r.get("final", []))], r.get("alive"), sorted(r.get("log", []))))
+        print("impl  ->", frag_canon(case, r)[:1500])
+        rc, out = vlib.sh([vlib.model_bin("reqlimit")], input=frag_model_line(case) + "\n")
+        print("model ->", out.strip()[:1500])
+        if "_meta" not in case:
+            return 0
+        twin = None if case.get("_naive") else L.run_srv([frag_twin(case)])[0]
+        fs = frag_oracle(case, r, twin)
+        print("oracle:", "holds" if not fs else "FAILS " + "; ".join("%s (%s)" % (k, d[:400]) for k, d in fs))
+        return 1 if fs else 0
     if case.get("mode") == "pipeline":
         r = L.run_srv([public(case)])[0]
         print("case:", json.dumps(public(case))[:1500])
